@@ -15,8 +15,13 @@ a model state to it: pending backref ranges become hole cells whose id is the
 backref key (= logical end offset), `consumed` is the ghost log of every byte
 handed to the consumer since the last clear.
 
-Scope: single-iovec histories (no clone / take / arena swap / foreign anchored
-slices — those are C20's frame argument).
+Scope of THIS file: histories of one iovec over the `Op` vocabulary.  The same clauses for
+every handle of every multi-object history — all `WOp` constructors: clone, take, arena
+hand-off / swap, foreign anchored slices, detached `AnchoredSlice`s, drops, `new_from_slices`,
+`read_n` … — are `Props/C03W.lean` (`fifo_w`, `size_eq_w`, `consume_reports_w`,
+`no_empty_slice_w`, `reachable_refines_w`; side condition `FillPrivate`, decided by
+`World.okRunB`), and for the anchored composite `Props/C03G.lean`; public-API spellings that
+are not `WOp` constructors are reduced to `WOp` lists in `Props/C05A.lean` / `C03A.lean`.
 -/
 import Woodpile.Proofs.IovecAbs
 
